@@ -25,6 +25,16 @@ for sid in ids:
         bad.append(sid)
     if os.path.exists(os.path.join(d, 'eval.json')):
         os.remove(os.path.join(d, 'eval.json'))
+if sys.argv[1:]:
+    # partial run: merge into the existing record
+    try:
+        old = json.load(open(os.path.join(V, 'seeded', 'REGRESSION.json')))
+        merged = dict(old.get('results', {}))
+        merged.update(out)
+        out = merged
+        bad = sorted(k for k, v in out.items() if not v.get('caught'))
+    except Exception:
+        pass
 json.dump({'repo_head': subprocess.run(['git', '-C', '/repo', 'rev-parse', '--short', 'HEAD'], capture_output=True, text=True).stdout.strip(),
            'verif_head': subprocess.run(['git', '-C', V, 'rev-parse', '--short', 'HEAD'], capture_output=True, text=True).stdout.strip(),
            'results': out, 'not_caught': bad}, open(os.path.join(V, 'seeded', 'REGRESSION.json'), 'w'), indent=1)
